@@ -169,4 +169,129 @@ theorem chiralMorgan_fuel (h : TupleHash) (single : Nat → Bool) (m : MolView) 
                 exact absurd heq (differentiation_fuel h (intAdjacency m.bonds) tetra labels _ _ _ (Nat.lt_succ_self _))
               · split <;> simp
 
+/-! ## labels on pairwise inequivalent centres do not change the classes -/
+
+theorem toWeights_lookup (r : List (Nat × Nat)) (n : Nat) :
+    (toWeights r).lookup n = (r.lookup n).map (fun v => (v : Int)) := by
+  induction r with
+  | nil => rfl
+  | cons kv tl ih =>
+    obtain ⟨k, v⟩ := kv
+    simp only [toWeights, map_cons, lookup_cons] at ih ⊢
+    cases hk : n == k <;> simp [ih]
+
+theorem exMapM_keyOf_ok (w : Weights) (val : Nat → Int) :
+    ∀ (S : List Nat), (∀ n ∈ S, w.lookup n = some (val n)) → exMapM (keyOf w) S = .ok (S.map fun n => (n, val n)) := by
+  intro S
+  induction S with
+  | nil => intro _; rfl
+  | cons a tl ih =>
+    intro hS
+    have ha : keyOf w a = .ok (a, val a) := by
+      unfold keyOf mget getKey
+      rw [hS a mem_cons_self]
+    simp only [exMapM, bind, Except.bind, ha, ih (fun n hn => hS n (mem_cons_of_mem _ hn)), pure, Except.pure, map_cons]
+
+/-- all groups are singletons when the labelled atoms have pairwise different weights -/
+theorem groupsOf_singletons (w : Weights) (val : Nat → Int) (S : List Nat)
+    (hS : ∀ n ∈ S, w.lookup n = some (val n)) (hd : (S.map val).Nodup) :
+    ∃ gs, groupsOf w S = .ok gs ∧ ∀ g ∈ gs, g.length = 1 := by
+  unfold groupsOf
+  rw [exMapM_keyOf_ok w val S hS]
+  refine ⟨_, rfl, ?_⟩
+  intro g hg
+  obtain ⟨k, hk, rfl⟩ := mem_map.mp hg
+  simp only [length_map]
+  -- k is one of the values; exactly one element of S has it
+  have hk' : k ∈ (S.map fun n => (n, val n)).map (·.2) := by
+    have : ∀ l : List Int, ∀ x, x ∈ dedupInts l → x ∈ l := by
+      intro l
+      induction l with
+      | nil => intro x hx; simp [dedupInts] at hx
+      | cons a tl ih =>
+        intro x hx
+        simp only [dedupInts, mem_cons, mem_filter] at hx
+        rcases hx with rfl | ⟨hx, _⟩
+        · exact mem_cons_self
+        · exact mem_cons_of_mem _ (ih x hx)
+    exact this _ _ hk
+  simp only [map_map, Function.comp_def] at hk'
+  clear hk hg
+  induction S with
+  | nil => simp at hk'
+  | cons a tl ih =>
+    simp only [map_cons, nodup_cons, mem_map] at hd
+    simp only [map_cons, filter_cons]
+    by_cases hak : val a = k
+    · subst hak
+      have : filter (fun nv => nv.2 == val a) (map (fun n => (n, val n)) tl) = [] := by
+        simp only [filter_eq_nil_iff, mem_map, beq_iff_eq]
+        rintro nv ⟨n, hn, rfl⟩ heq
+        exact hd.1 ⟨n, hn, heq⟩
+      simp [this]
+    · have hne : ((val a) == k) = false := by simp [hak]
+      simp only [hne, Bool.false_eq_true, if_false]
+      apply ih (fun n hn => hS n (mem_cons_of_mem _ hn)) hd.2
+      simp only [map_cons, mem_cons] at hk'
+      rcases hk' with h | h
+      · exact absurd h.symm hak
+      · exact h
+
+theorem processGroup_singleton (tetra : List (Nat × List Nat)) (labels : List (Nat × Bool)) (w : Weights)
+    (st : PassState) (g : List Nat) (hg : g.length = 1) : processGroup tetra labels w st g = .ok st := by
+  unfold processGroup
+  simp [hg]
+
+theorem processGroups_singletons (tetra : List (Nat × List Nat)) (labels : List (Nat × Bool)) (w : Weights) :
+    ∀ (gs : List (List Nat)) (st : PassState), (∀ g ∈ gs, g.length = 1) →
+      processGroups tetra labels w st gs = .ok st := by
+  intro gs
+  induction gs with
+  | nil => intro st _; rfl
+  | cons g tl ih =>
+    intro st hg
+    simp only [processGroups, processGroup_singleton tetra labels w st g (hg g mem_cons_self)]
+    exact ih st (fun g' hg' => hg g' (mem_cons_of_mem _ hg'))
+
+theorem nodup_cast {l : List Nat} (h : l.Nodup) : (l.map fun (v : Nat) => (v : Int)).Nodup := by
+  induction l with
+  | nil => simp
+  | cons a tl ih =>
+    simp only [nodup_cons, map_cons, mem_map] at h ⊢
+    refine ⟨?_, ih h.2⟩
+    rintro ⟨b, hb, hab⟩
+    have : b = a := by exact_mod_cast hab
+    exact h.1 (this ▸ hb)
+
+theorem chiralMorgan_distinct (h : TupleHash) (single : Nat → Bool) (m : MolView) (labels : List (Nat × Bool))
+    (r0 : List (Nat × Nat)) (tet : List Nat) (tetra : List (Nat × List Nat))
+    (hb : stereoBondAtoms m.bonds = []) (hl : labels ≠ [])
+    (hr : atomsOrder h m = some r0) (ht : tetrahedrons m = .ok tet)
+    (hst : stereogenicTetrahedrons single m = .ok tetra)
+    (hin : ∀ n ∈ labels.map (·.1), n ∈ tet)
+    (val : Nat → Nat) (hval : ∀ n ∈ labels.map (·.1), r0.lookup n = some (val n))
+    (hd : ((labels.map (·.1)).map val).Nodup) :
+    chiralMorgan h single m labels = .ranks r0 := by
+  have hS : (labels.map (·.1)).filter tet.contains = labels.map (·.1) := by
+    apply filter_eq_self.mpr
+    intro n hn
+    simpa using hin n hn
+  have hle : labels.isEmpty = false := by cases labels <;> simp_all
+  unfold chiralMorgan
+  simp only [hle, Bool.false_and, Bool.false_eq_true, if_false, hb, isEmpty_nil, Bool.not_true, hr, ht, hS,
+    length_map, bne_self_eq_false, hst]
+  -- one pass, nothing to do
+  have hw : ∀ n ∈ labels.map (·.1), (toWeights r0).lookup n = some ((val n : Nat) : Int) := by
+    intro n hn; rw [toWeights_lookup, hval n hn]; rfl
+  have hd' : ((labels.map (·.1)).map fun n => ((val n : Nat) : Int)).Nodup := by
+    have h2 := nodup_cast hd
+    rw [map_map] at h2
+    exact h2
+  obtain ⟨gs, hgs, hone⟩ := groupsOf_singletons (toWeights r0) (fun n => ((val n : Nat) : Int)) _ hw hd'
+  have hp : pass tetra labels (toWeights r0) (labels.map (·.1)) = .ok ⟨[], [], []⟩ := by
+    unfold pass
+    rw [hgs]
+    exact processGroups_singletons tetra labels (toWeights r0) gs _ hone
+  simp only [differentiation, hp, isEmpty_nil, if_true]
+
 end ChythonModel.Proofs.C01
